@@ -610,6 +610,8 @@ func routeHistory(id int, rng *rand.Rand, dir string) vO {
 			case "":
 			case "#list":
 				m["to"] = []interface{}{"c", "nobody", "c", float64(3)}
+			case "#wslist": // a service (here: one that nobody listens to) named next to a machine
+				m["to"] = []interface{}{"ws", "c"}
 			default:
 				m["to"] = to
 			}
@@ -617,7 +619,7 @@ func routeHistory(id int, rng *rand.Rand, dir string) vO {
 		}
 		return out
 	}
-	emits := map[string][]interface{}{"a": mk([]string{"b", "c", "c", "nobody", "#list"}), "b": mk([]string{"c", "nobody", "#list"}), "c": {}}
+	emits := map[string][]interface{}{"a": mk([]string{"b", "c", "c", "nobody", "#list", "#wslist"}), "b": mk([]string{"c", "nobody", "#list", "#wslist"}), "c": {}}
 	// The first history of every run is the burst scenario of the known finding F-C14-mcrew-emitted-dropped: the host's
 	// Emitted channel holds 2 messages (mcrew's main.go gives it 8), one step emits 5, and the host reads the channel only
 	// after processing has gone quiet.
@@ -648,7 +650,7 @@ func routeHistory(id int, rng *rand.Rand, dir string) vO {
 	for i, n := 0, 1+rng.Intn(2); i < n && !(burst && i > 0); i++ {
 		seq++
 		m := map[string]interface{}{"m": "x" + strconv.Itoa(seq)}
-		switch k := rng.Intn(9); {
+		switch k := rng.Intn(10); {
 		case burst:
 			m["to"] = "a"
 		case k == 0: // broadcast
@@ -665,12 +667,20 @@ func routeHistory(id int, rng *rand.Rand, dir string) vO {
 			m["to"] = []interface{}{"a", "c"}
 		case k == 6:
 			m["to"] = []interface{}{"b", "b", float64(7), "nobody", "a"}
+		case k == 7:
+			m["to"] = []interface{}{"ws", "a"}
 		default:
 			m["to"] = "a"
 		}
 		desc := describe(m)
 		externals = append(externals, desc)
-		s.Process(ctx, m, nil)
+		// (a Process that does not come back within 3 s is left behind: the judge then misses the presentations)
+		returned := make(chan bool, 1)
+		go func() { s.Process(ctx, m, nil); returned <- true }()
+		select {
+		case <-returned:
+		case <-time.After(3 * time.Second):
+		}
 		// wait until the asynchronous re-processing has gone quiet
 		for {
 			time.Sleep(15 * time.Millisecond)
